@@ -15,6 +15,13 @@ CertBlockEnd / Manifest / ManifestCrc / VerifySigV21 / CheckDigest -> Accept wit
  TV : TLC (MbiRomTrace) decides every trace: ranges recomputed from the logged header fields, crypto facts TRUE, coverage.
  tamper: single-bit flips per field class (all bits of small images in the thorough tier) must end in Reject
       (key store: Accept), as TLC predicted in the GEN run.
+ Strengthening round (seeds C02-m5, C02-m6): the GEN run also emits (a) the payload lengths around byte 64 (0x38, 0x3C, 64 -
+      the smallest sizes the image classes accept; with a relocation table the image is ordinary, without one a load-to-RAM
+      image with HMAC is the unsettled corner of MbiRom.tla: ReadIvt + CheckHmac asserted, then CertSplit) and (b) the special
+      value classes of chained computations (running / final CRC exactly 0 or all ones at every natural split offset, manifest
+      CRC likewise, AES-CTR counter start 0 / all ones / carry out of the low word(s)).  Every one of them is built
+      deterministically in every image class it applies to; CRC classes are reached by solving a payload word over GF(2)
+      (lib/crc_craft.py, bit-serial CRC) and confirmed on the exported bytes with the table-driven CRC of the executor.
 """
 import json
 import os
@@ -23,7 +30,8 @@ import struct
 import yaml
 
 from lib import mbi_keys as K
-from lib import mbi_rom as R
+from lib import crc_craft
+from lib import mbi_rom2 as R
 from lib import tlc
 from lib.common import Machinery, import_spsdk, rng, say, scratch, sha
 from lib.par import pmap
@@ -33,7 +41,8 @@ PROP = "C02"
 IMAGE_TYPE = {"PLAIN_IMAGE": 0, "SIGNED_RAM_IMAGE": 1, "CRC_RAM_IMAGE": 2, "ENCRYPTED_RAM_IMAGE": 3, "SIGNED_XIP_IMAGE": 4,
               "CRC_XIP_IMAGE": 5, "SIGNED_XIP_NXP_IMAGE": 8}
 AUTH_CFG = {"crc": "crc", "signed": "signed", "nxp_signed": "signed-nxp", "encrypted": "signed-encrypted"}
-LENS = [64, 65, 70, 128, 256, 300, 1021, 1024, 4096, 4100, 20001]
+LENS = [56, 57, 60, 64, 65, 70, 128, 256, 300, 1021, 1024, 4096, 4100, 20001]
+FREE_WORD = 0x1C  # vector 7: a payload word in front of every split offset that no tool and no ROM touches
 RELOC_MARKER = 0x4C54424C
 
 
@@ -107,10 +116,16 @@ def gen_bytes(n, seed):
     return bytes(r.getrandbits(8) for _ in range(n))
 
 
-def gen_app(n, seed):
+def gen_app(n, seed, patch=None):
     d = bytearray(gen_bytes(n, seed))
     d[0:12] = struct.pack("<3I", 0x20008000, 0x000001C1 + 4 * (seed % 1000), 0x000002C1)  # SP, reset vector, NMI: pairwise distinct
+    if patch:
+        struct.pack_into("<I", d, patch["off"], patch["word"])  # a crafted payload word (see craft)
     return bytes(d)
+
+
+def aligned(n):
+    return (n + 3) // 4 * 4
 
 
 def v1_material(bits, nroots, used, depth):
@@ -168,7 +183,20 @@ def common_opts(comp, mem, r, tier):
     return o
 
 
-def make_cases(comps, tier, r):
+def iv_of(cls, r):
+    """A counter start value of the class the GEN run named."""
+    if cls == "zero":
+        return 0
+    if cls == "ones":
+        return (1 << 128) - 1
+    if cls == "lo64ones":
+        return ((r.getrandbits(63) << 1) << 64) | ((1 << 64) - 1)  # bit 64 clear: not all ones
+    if cls == "lo32ones":
+        return (r.getrandbits(96) << 32 | 0xFFFFFFFF) & ~(1 << 32 + r.randrange(32))  # one bit of the next word clear: not lo64ones
+    raise Machinery(f"GEN named a counter class the harness cannot build: {cls}")
+
+
+def make_cases(comps, tier, r, gen):
     cases = []
 
     def add(comp, mem, **kw):
@@ -248,6 +276,49 @@ def make_cases(comps, tier, r):
                 curve = r.choice(["p256", "p384"])
                 add(comp, pick(), v21={"curve": curve, "roots": [lz], "used": 0, "isk": None, "ud": 0, "cons": 0},
                     digest=("add" if comp["man"] == 1 and r.random() < 0.5 else None))
+
+    # ---- the lanes TLC planned in the GEN run: payload lengths around byte 64, special values of chained computations.
+    # Deterministic in both tiers: every class x every composition it applies to (key material: the cheapest class).
+    for comp in comps:
+        if comp["kind"] == "dsc":
+            continue
+        mems, kind = comp["members"], comp["kind"]
+        mem_tz = [m for m in mems if m["tz"]] or mems
+
+        def cheap(no_isk=False):
+            if comp["cb"] == 1:
+                return {"v1": {"bits": 2048, "nroots": r.randrange(1, 5), "used": 0, "depth": r.choice([1, 2])}}
+            if comp["cb"] == 21:
+                curve, n = r.choice(["p256", "p384"]), r.randrange(1, 5)
+                isk = None if no_isk or r.random() < 0.5 else "p256_isk"
+                return {"v21": {"curve": curve, "roots": [f"r{i}" for i in range(n)], "used": r.randrange(n), "isk": isk, "ud": 0,
+                                "cons": r.getrandbits(31)}, "digest": None}
+            return {}
+
+        bounds = sorted(gen["small"].get(kind, ())) + [64]  # aligned payload lengths: below byte 64 (from TLC) and exactly 64
+        if comp.get("hmac"):
+            # the HMAC field at byte 64 meets the end of the payload: every combination of what can sit there
+            menu = ["default", "custom", "disabled"] if comp["tz_kind"] == "optional" else ["default", "custom"]
+            for a in bounds:
+                for nrel in ((0, 1) if comp["opts"]["reloc"] else (0,)):
+                    for ks in ((False, True) if comp["opts"]["ks"] else (None,)):
+                        for tz in menu:
+                            rel = [{"len": r.choice([4, 5, 100]), "seed": r.getrandbits(30), "dst": r.getrandbits(32) & ~3} for _ in range(nrel)]
+                            add(comp, r.choice(mem_tz), len=r.choice([a, a - 3]), reloc=rel, ks=ks, tz=tz, **cheap())
+        else:
+            for a in bounds:
+                for raw in (a, a - 3):
+                    add(comp, r.choice(mem_tz), len=raw, **cheap())
+        for sp in gen["special"].get(kind, ()):
+            if sp["what"] == "crc":
+                add(comp, r.choice(mems), special=sp, len=r.choice([64, 65, 72, 300]) if sp["cut"] <= 64 else sp["cut"] + r.choice([0, 1, 300]))
+            elif sp["what"] == "mancrc":  # no ISK: its ECDSA signature (fresh per export) lies inside the CRC range
+                add(comp, r.choice(mems), special=sp, len=r.choice([56, 64, 100, 300]), **cheap(no_isk=True))
+            elif sp["what"] == "ctr":
+                for ks in (False, True):
+                    add(comp, r.choice(mems), special=sp, iv=iv_of(sp["cls"], r), ks=ks, len=r.choice([64, 65, 300, 1024, 4100]), **cheap())
+            else:
+                raise Machinery(f"GEN named a special the harness cannot build: {sp}")
     return cases
 
 
@@ -264,14 +335,44 @@ def reloc_bytes(entries, start):
     return imgs + recs + struct.pack("<4I", RELOC_MARKER, 0, len(entries), start + len(imgs))
 
 
+def craft(data, rom, sec, sp):
+    """The payload word that drives the chained CRC of the exported image `data` through the value class sp at its cut:
+    {"off", "word"} or None. The bytes the CRC runs over are taken from a real export, so no layout is assumed."""
+    target = crc_craft.TARGETS[sp["cls"]]
+    if sp["what"] == "crc":
+        stream = data[:0x28] + data[0x2C:]  # the ROM's pass: the image without the CRC word
+        cut = len(stream) if sp["cut"] == 0 else sp["cut"] if sp["cut"] <= 0x28 else sp["cut"] - 4
+    else:
+        ev, _ = R.walk(data, rom, sec)
+        at = next((e["at"] for e in ev if e["ev"] == "ManifestCrc"), None)
+        if at is None:
+            return None
+        stream = data[:at]  # everything in front of the manifest CRC word
+        cut = at if sp["cut"] == 0 else sp["cut"]
+    w = crc_craft.solve_word(stream, FREE_WORD, cut, target)
+    return None if w is None else {"off": FREE_WORD, "word": w}
+
+
 def build(case, comp, d):
-    """Returns (exported bytes, rom, sec, info). Raises whatever SPSDK raises."""
+    """Returns (exported bytes, rom, sec, info). Raises whatever SPSDK raises. A case with a CRC special is built twice:
+    once as it is, to see the bytes the CRC runs over, and once with the crafted payload word (kept in info for the replay)."""
+    patch = case.get("patch")
+    sp = case.get("special")
+    if sp and sp["what"] in ("crc", "mancrc") and patch is None:
+        data0, rom0, sec0, _ = build_once(case, comp, d, None)
+        patch = craft(data0, rom0, sec0, sp)
+    data, rom, sec, info = build_once(case, comp, d, patch)
+    info["patch"] = patch
+    return data, rom, sec, info
+
+
+def build_once(case, comp, d, patch):
     from spsdk.image.mbi.mbi import get_mbi_class
 
     os.makedirs(d, exist_ok=True)
     mem = next(m for m in comp["members"] if m["family"] == case["family"] and m["target"] == case["target"] and m["auth"] == case["auth"])
     f = lambda name: os.path.join(d, name)  # noqa: E731
-    app = gen_app(case["len"], case["seed"])
+    app = gen_app(case["len"], case["seed"], patch)
     open(f("app.bin"), "wb").write(app)
     cfg = {"family": case["family"], "outputImageExecutionTarget": "xip" if case["target"] == "xip" else "load-to-ram",
            "outputImageAuthenticationType": AUTH_CFG[case["auth"]], "masterBootOutputFile": f("mbi.bin"), "inputImageFile": f("app.bin")}
@@ -370,10 +471,11 @@ def build(case, comp, d):
         fuse = mbi.rkth
     rom = {"type": comp["type"], "cb": comp["cb"], "hmac": bool(comp["hmac"]), "tz": mem["tz"], "man": comp["man"]}
     sec = {"userKey": uk, "fuse": fuse if comp["cb"] else None, "plain": None}
+    appa = app + bytes(-len(app) % 4)
+    payload = appa + (reloc_bytes(rel, len(appa)) if op["reloc"] and rel else b"")
     if comp["type"] == 3:
-        appa = app + bytes(-len(app) % 4)
-        sec["plain"] = R.mask_rom_words(appa + (reloc_bytes(rel, len(appa)) if rel else b"")) + tz_data
-    return data, rom, sec, {"cfg": cfg}
+        sec["plain"] = R.mask_rom_words(payload) + tz_data
+    return data, rom, sec, {"cfg": cfg, "pay": len(payload)}
 
 
 def key_class(case):
@@ -395,8 +497,13 @@ def feature_class(case):
         f.append("reloc")
     if case.get("ks"):
         f.append("ks")
-    if case["len"] <= 64:
+    if aligned(case["len"]) == 64:
         f.append("len64")  # the payload ends where the HMAC goes
+    elif aligned(case["len"]) < 64:
+        f.append("sub64")  # the payload ends inside the first 64 bytes
+    sp = case.get("special")
+    if sp:
+        f.append(f"{sp['what']}@{sp['cut']}={sp['cls']}")
     return "+".join(f) or "base"
 
 
@@ -426,70 +533,59 @@ def run_case(job):
 
         return {"id": case["id"], "outcome": "refused" if isinstance(x, SPSDKError) else "crash", "exc": f"{type(x).__name__}: {str(x)[:200]}"}
     ev, reg = R.walk(data, rom, sec)
-    res = {"id": case["id"], "outcome": "exported", "trace": {"id": case["id"], "rom": rom, "ev": ev}, "n": len(data), "tamper": [], "reg": reg,
-           "sha": sha(data.hex())}
-    if tamper and ev and ev[-1]["ev"] == "Accept":
+    res = {"id": case["id"], "outcome": "exported", "trace": {"id": case["id"], "rom": rom, "pay": _info["pay"], "ev": ev}, "n": len(data),
+           "tamper": [], "reg": reg, "sha": sha(data.hex()), "patch": _info.get("patch")}
+    sp = case.get("special")
+    if sp:  # did the exported image really reach the class TLC planned? (measured by the executor on the real bytes)
+        if sp["what"] == "ctr":
+            res["reached"] = any(e["ev"] == "Decrypt" and e.get("ivClass") == sp["cls"] for e in ev)
+        else:
+            name = "CheckCrc" if sp["what"] == "crc" else "ManifestCrc"
+            res["reached"] = any(e["ev"] == name and [sp["cut"], sp["cls"]] in e.get("chain", []) for e in ev)
+    if tamper and ev and ev[-1]["ev"] in ("Accept", "CertSplit"):
         r = rng(PROP, "tamper", case["id"])
         for name, pos, bit in tamper_plan(reg, len(data), r, tamper):
             b2 = bytearray(data)
             b2[pos] ^= 1 << bit
             ev2, _ = R.walk(bytes(b2), rom, sec)
-            res["tamper"].append({"id": f"{case['id']}#{pos}.{bit}", "cls": name, "rom": rom, "ev": ev2})
+            res["tamper"].append({"id": f"{case['id']}#{pos}.{bit}", "cls": name, "rom": rom, "pay": _info["pay"], "ev": ev2})
     return res
 
 
 # ------------------------------------------------------------------ run
-def mc_start(tier):
-    """The MC / GEN run in a forked child, concurrently with the construction of the images (no threads: the workers are forked too)."""
-    import multiprocessing as mp
-
-    ctx = mp.get_context("fork")
-    rx, tx = ctx.Pipe(duplex=False)
-
-    def child():
-        tlc._counter[0] += 100000  # private TLC metadir names
-        try:
-            tx.send(("ok", mc_run(tier)))
-        except Machinery as x:
-            tx.send(("err", str(x)))
-        except Exception as x:  # noqa: BLE001
-            tx.send(("err", f"{type(x).__name__}: {x}"))
-
-    p = ctx.Process(target=child)
-    p.start()
-    tx.close()
-    return p, rx
-
-
-def mc_finish(v, handle):
-    p, rx = handle
-    try:
-        kind, g = rx.recv()
-    except EOFError:
-        kind, g = "err", "the model-checking child died"
-    p.join()
-    if kind != "ok":
-        raise Machinery(f"model checking of MbiRomMC failed: {g}")
-    return mc_plan(v, g)
-
-
 def mc_run(tier):
     return tlc.mc("C02", "MbiRomMC", "MbiRomMC.cfg", env={"MC_FULL": "0" if tier == "quick" else "1"}, workers=4 if tier == "quick" else 16, heap="8g",
                timeout=900, deadlock=True,
                require_actions=("ReadIvt", "CheckCrc", "CheckHmac", "CertBlockV1", "CertV1", "RkhTable", "VerifySigV1", "Decrypt", "CertBlockV21",
-                                "RootKeyRecord", "IskCert", "CertBlockEnd", "Manifest", "ManifestCrc", "VerifySigV21", "CheckDigest", "Accept", "Emit"))
+                                "RootKeyRecord", "IskCert", "CertBlockEnd", "Manifest", "ManifestCrc", "VerifySigV21", "CheckDigest", "Accept", "Emit",
+                                "CertSplit"))
 
 
 def mc_plan(v, g):
+    """What the GEN run planned: tamper verdicts per (kind, field class, corner), payload lengths below byte 64 per kind,
+    special value classes of chained computations per kind."""
     v.add_mc(g)
-    plan = {}
+    plan, small, special = {}, {}, {}
     for j in g.json_prints():
-        k = (j["kind"], j["cls"])
+        k = (j["kind"], j["cls"], bool(j["corner"]))
         if plan.setdefault(k, j["verdict"]) != j["verdict"]:
             raise Machinery(f"GEN: field class {k} has both verdicts")
+        if j["app"] < 64:
+            small.setdefault(j["kind"], set()).add(j["app"])
+        if j["sp"]["what"] != "none":
+            if j["verdict"] != "Accepted":
+                raise Machinery(f"GEN: the ROM model does not accept the special {j['sp']} of kind {j['kind']}")
+            if j["sp"] not in special.setdefault(j["kind"], []):
+                special[j["kind"]].append(j["sp"])
+    for k in special:
+        special[k].sort(key=lambda sp: (sp["what"], sp["cut"], sp["cls"]))
     if len(plan) < 80:
         raise Machinery(f"GEN emitted only {len(plan)} (kind, field class) pairs")
-    return plan
+    if not all(small.get(k) for k in ("crc_xip", "crc_ram", "v1_xip", "v1_ram", "v1_enc", "v21_dig", "v21_crc")):
+        raise Machinery(f"GEN emitted no payload length below byte 64 for some kind: {small}")
+    if sum(len(x) for x in special.values()) < 40 or not all(special.get(k) for k in ("crc_xip", "crc_ram", "v21_crc", "v1_enc")):
+        raise Machinery(f"GEN emitted too few special value classes: {special}")
+    return {"plan": plan, "small": small, "special": special}
 
 
 def canary(good_trace):
@@ -514,6 +610,15 @@ def canary(good_trace):
     bads.append(b3)
     if len(bads) < 3:
         raise Machinery("canary: no signature step in the known-good trace")
+    # the exit for the unsettled corner must not be open to an ordinary image: the same trace cut short behind its HMAC check
+    k = next((i for i, e in enumerate(good["ev"]) if e["ev"] == "CheckHmac"), None)
+    if k is None:
+        raise Machinery("canary: no HMAC step in the known-good trace")
+    w28 = good["ev"][0]["w28"][0] * 65536 + good["ev"][0]["w28"][1]
+    for name, pay in (("canary-split-ordinary-image", w28), ("canary-split-claimed-short-payload", 56)):
+        b4 = json.loads(json.dumps(good))
+        b4.update(id=name, pay=pay, ev=b4["ev"][:k + 1] + [{"ev": "CertSplit", "at": w28}])
+        bads.append(b4)
     return [good] + bads
 
 
@@ -522,7 +627,8 @@ def canary_verdict(rej, can):
     want = {t["id"] for t in can[1:]}
     if got != want:
         raise Machinery(f"canary failed: rejected {sorted(got)}, expected exactly {sorted(want)}")
-    return f"known-good trace accepted; {len(want)} corrupted copies (signed range short by one word, crypto fact false, step skipped) rejected"
+    return (f"known-good trace accepted; {len(want)} corrupted copies (signed range short by one word, crypto fact false, step skipped, "
+            f"ordinary image leaving through the unsettled-corner exit) rejected")
 
 
 def anchors():
@@ -560,10 +666,10 @@ def decide(v, cases_by_id, comps_by_id, results, plan, tier, can, anc):
         traces.append(res["trace"])
         tampers += res["tamper"]
     for t in traces + tampers:
-        if not t["ev"] or t["ev"][-1]["ev"] not in ("Accept", "Reject"):
+        if not t["ev"] or t["ev"][-1]["ev"] not in ("Accept", "Reject", "CertSplit"):
             raise Machinery(f"executor produced an open-ended trace {t['id']}")
     rej = {}
-    allt = can + anc + traces + [{"id": t["id"], "rom": t["rom"], "ev": t["ev"]} for t in tampers]
+    allt = can + anc + traces + [{"id": t["id"], "rom": t["rom"], "pay": t["pay"], "ev": t["ev"]} for t in tampers]
     chunk = 60000
     tv_states = 0
     for k in range(0, len(allt), chunk):
@@ -576,10 +682,13 @@ def decide(v, cases_by_id, comps_by_id, results, plan, tier, can, anc):
     v.traces(len(traces) + len(tampers))
     by_id = {t["id"]: t for t in traces}
     n_acc = 0
+    v.extra["unsettled_corner_prefix_accepted"] = 0
     for t in traces:
         case = cases_by_id[t["id"]]
         if t["id"] not in rej:
             n_acc += 1
+            if t["ev"][-1]["ev"] == "CertSplit":  # ReadIvt + CheckHmac hold; TLC agreed that the rest is the unsettled corner
+                v.extra["unsettled_corner_prefix_accepted"] += 1
             v.nontrivial((case["comp"], key_class(case), feature_class(case), case["len"] % 4, case["tz"]))
             continue
         matched, length, evname = rej[t["id"]]
@@ -594,11 +703,12 @@ def decide(v, cases_by_id, comps_by_id, results, plan, tier, can, anc):
         case = cases_by_id[t["id"].split("#")[0]]
         if case["id"] in rej:
             continue
-        exp = plan.get((case["kind"], t["cls"]))
+        corner = by_id[case["id"]]["ev"][-1]["ev"] == "CertSplit"
+        exp = plan.get((case["kind"], t["cls"], corner))
         if exp is None:
-            raise Machinery(f"executor named a field class the spec does not know: {case['kind']}/{t['cls']}")
-        got = "Rejected" if t["id"] in rej else "Accepted"
-        st = tam_stats.setdefault(f"{case['kind']}/{t['cls']}", {"Rejected": 0, "Accepted": 0, "expected": exp})
+            raise Machinery(f"executor named a field class the spec does not know: {case['kind']}/{t['cls']} (corner: {corner})")
+        got = "Rejected" if t["id"] in rej else "Unsettled" if t["ev"][-1]["ev"] == "CertSplit" else "Accepted"
+        st = tam_stats.setdefault(f"{case['kind']}{'~corner' if corner else ''}/{t['cls']}", {"Rejected": 0, "Accepted": 0, "Unsettled": 0, "expected": exp})
         st[got] += 1
         if got != exp:
             mismatch.append(f"tamper run {t['id']} ({case['kind']}/{t['cls']}, {case['comp']}): automaton says {got}, the model predicted {exp}: "
@@ -619,19 +729,27 @@ def run(tier):
     comps = compositions()
     comps_by_id = {c["id"]: c for c in comps}
     say(f"[C02] {len(comps)} protected mixin compositions in the database ({sum(1 for c in comps if c['kind'] == 'dsc')} DSC, outside the domain)")
-    cases = make_cases(comps, tier, r)
+    scratch()
+    # MC + GEN first: lemmas of the ROM model, the tamper plan and the plan of the lengths / special values the cases have to reach
+    gen = mc_plan(v, mc_run(tier))
+    plan = gen["plan"]
+    n_sp = sum(len(x) for x in gen["special"].values())
+    say(f"[C02] MC done {v.timer.s()}s: {v.cov['states']} states, {len(plan)} (kind, field class) verdicts, payload lengths below byte 64: "
+        f"{sorted(set().union(*gen['small'].values()))}, {n_sp} special value classes of chained computations")
+    cases = make_cases(comps, tier, r, gen)
     cases_by_id = {c["id"]: c for c in cases}
 
     # tamper selection: per (composition, key class) one image with class-wise flips; thorough: + every bit of the smallest image per kind
+    # (images with a special value are ordinary images as far as the regions go: not tampered with)
     seen, tam = set(), {}
     for c in cases:
+        if c.get("special"):
+            continue
         k = (c["comp"], key_class(c).split("-")[0], feature_class(c)) if tier == "quick" else (c["comp"], key_class(c), feature_class(c))
         if k not in seen:
             seen.add(k)
             tam[c["id"]] = "classes"
 
-    scratch()
-    mc_handle = mc_start(tier)
     jobs = [(c, comps_by_id[c["comp"]], tam.get(c["id"])) for c in cases]
     results = pmap(run_case, jobs, chunksize=4)
     v.count(len(results))
@@ -644,8 +762,22 @@ def run(tier):
     if len(bad) > len(results) // 20:
         raise Machinery(f"{len(bad)} of {len(results)} configurations were refused by the builder, e.g. {bad[0]['exc']} for {cases_by_id[bad[0]['id']]}")
 
-    plan = mc_finish(v, mc_handle)
-    say(f"[C02] MC done {v.timer.s()}s: {v.cov['states']} states, {len(plan)} (kind, field class) verdicts")
+    # the planned special values: every one has to be reached on the exported bytes (else the generator did not do its job)
+    sp_stats, missed = {}, []
+    for res in results:
+        c = cases_by_id[res["id"]]
+        if res["outcome"] == "exported" and c.get("special"):
+            if res.get("patch"):
+                c["patch"] = res["patch"]  # the witness of a violation replays the crafted word
+            st = sp_stats.setdefault(f"{c['kind']}/{c['special']['what']}", {"planned": 0, "reached": 0})
+            st["planned"] += 1
+            st["reached"] += bool(res.get("reached"))
+            if not res.get("reached"):
+                missed.append(f"{c['id']} {c['comp']} {c['special']}")
+    v.extra["special_values"] = sp_stats
+    v.extra["special_values_not_reached"] = missed[:20]
+    say(f"[C02] special values of chained computations reached on the exported bytes: "
+        + ", ".join(f"{k} {st['reached']}/{st['planned']}" for k, st in sorted(sp_stats.items())))
 
     if tier == "thorough":  # every bit of the smallest accepted image per kind (<= 4 KiB)
         best = {}
@@ -666,20 +798,23 @@ def run(tier):
         say(f"[C02] every-bit tamper of {len(jobs2)} images done {v.timer.s()}s")
 
     anc = anchors()
-    can = canary(next(t for t in anc if any(e["ev"] == "VerifySigV1" for e in t["ev"])))  # known-good trace: a golden image, independent of the tree
+    # known-good trace: a golden image (signed load-to-RAM image with HMAC), independent of the tree
+    can = canary(next(t for t in anc if any(e["ev"] == "VerifySigV1" for e in t["ev"]) and any(e["ev"] == "CheckHmac" for e in t["ev"])))
 
     n_acc, tam_stats, mismatch = decide(v, cases_by_id, comps_by_id, results, plan, tier, can, anc)
     v.extra["tamper_mismatches"] = mismatch[:20]
-    n_tam = sum(s["Rejected"] + s["Accepted"] for s in tam_stats.values())
+    n_tam = sum(s["Rejected"] + s["Accepted"] + s["Unsettled"] for s in tam_stats.values())
     v.extra["tamper_rejected"] = sum(s["Rejected"] for s in tam_stats.values())
     v.extra["tamper_accepted_dont_care"] = sum(s["Accepted"] for s in tam_stats.values())
+    v.extra["tamper_behind_unsettled_corner"] = sum(s["Unsettled"] for s in tam_stats.values())
     v.extra["tamper_by_class"] = tam_stats
-    planned = {k for k in plan if k[1] != "none"}
-    done = {tuple(k.split("/")) for k in tam_stats}
-    v.extra["tamper_classes_not_exercised"] = sorted("/".join(k) for k in planned - done)
+    planned = {f"{k[0]}{'~corner' if k[2] else ''}/{k[1]}" for k in plan if k[1] != "none"}
+    v.extra["tamper_classes_not_exercised"] = sorted(planned - set(tam_stats))
     say(f"[C02] canary: {v.extra['canary']}; {v.extra['anchors_accepted']} golden images of earlier tool versions accepted by the ROM model")
-    say(f"[C02] TV done {v.timer.s()}s: {n_acc} exported images accepted by the ROM automaton, {n_tam} tampered copies decided "
-        f"({v.extra['tamper_rejected']} rejected, {v.extra['tamper_accepted_dont_care']} key-store flips accepted as predicted)")
+    say(f"[C02] TV done {v.timer.s()}s: {n_acc} exported images pass the ROM automaton ({v.extra['unsettled_corner_prefix_accepted']} of them up to "
+        f"the HMAC check: unsettled corner), {n_tam} tampered copies decided ({v.extra['tamper_rejected']} rejected, "
+        f"{v.extra['tamper_accepted_dont_care']} key-store flips accepted, {v.extra['tamper_behind_unsettled_corner']} flips behind the unsettled corner, "
+        f"as predicted)")
     ex = [res for res in results if res["outcome"] == "exported"]
     for res in (ex[0], ex[len(ex) // 3], ex[len(ex) // 2], ex[-1]):
         v.sample({"case": cases_by_id[res["id"]], "bytes": res["n"], "trace": res["trace"]["ev"]})
@@ -690,16 +825,25 @@ def run(tier):
         "cases = protected mixin compositions of the device database x key material (v1: RSA 2048/3072/4096 x chain depth 1..4 x root-table "
         "size/index, one mixed-size chain; v2.1: P-256/P-384 x root-set size 1..4 x signing index x ISK none/P-256/P-384 x user data, keys with a "
         "leading zero coordinate byte) x seeded options (payload length class, TrustZone default/custom/disabled, relocation table 0..2, key store, "
-        "HW-key flag, versions, sub-type, load address, counter IV); each case is built by load_from_config/export, walked by the executor and "
-        "decided by TLC; non-trivial = the trace reaches Accept; distinct by (composition, key class, feature class, length mod 4, TrustZone mode)"
+        "HW-key flag, versions, sub-type, load address, counter IV) + the lanes TLC plans in the GEN run, built for every composition they apply "
+        "to: payload lengths 0x38 / 0x3C / 64 (HMAC compositions: x relocation table x key store x TrustZone mode) and the special value classes "
+        "of chained computations (running / final image CRC and manifest CRC = 0 / FFFFFFFF at offsets 0x20, 0x24, 0x28, 0x30, 0x34, 0x38, 0x40 "
+        "(thorough: + 0x200, 0x400, 0x1000) and at the end, reached by a payload word solved over GF(2); AES-CTR counter start 0 / all ones / low 32 / low 64 bits all ones); each "
+        "case is built by load_from_config/export, walked by the executor and "
+        "decided by TLC; non-trivial = the trace reaches Accept (unsettled corner: CertSplit); distinct by (composition, key class, feature class, "
+        "length mod 4, TrustZone mode)"
     )
     v.cov["checker_cmd"] = "TLC MbiRomMC (lemmas + tamper plan) ; TLC MbiRomTrace (decides every executor trace)"
-    v.cov["trusted_base"] = ["hashlib", "hmac", "own CRC-32/MPEG-2 (table from the polynomial)", "cryptography: RSA PKCS1v15 verify, ECDSA verify, AES-ECB, AES-CTR, X.509 DER parser",
+    v.cov["trusted_base"] = ["hashlib", "hmac", "own CRC-32/MPEG-2 (table from the polynomial; bit-serial for the construction of special values)", "cryptography: RSA PKCS1v15 verify, ECDSA verify, AES-ECB, AES-CTR, X.509 DER parser",
                              "TLC + MbiRom.tla clauses"]
     v.assumptions += [
         "the ROM model per family (image type, certificate block version, HMAC / key store, manifest kind, TrustZone block size) is read from the device database",
         "the fuse value (RKTH) the ROM compares with is the one the tool reports (MasterBootImage.rkth); the hash over the embedded table / key is recomputed independently",
-        "payloads shorter than the 64-byte vector table are outside the domain (C01 register: HMAC would land inside the certificate block)",
+        "load-to-RAM images with HMAC whose payload (incl. relocation table) ends before byte 64: the HMAC field splits the certificate block; "
+        "asserted are the header clauses and 'HMAC = HMAC-SHA256(AES-ECB(userKey, 0^16), first 64 bytes of the final file)' (the property text, "
+        "independent of what follows); what the ROM does with the split block is not settled offline - the automaton stops in 'Unsettled' "
+        "(SplitOK decides that only such images leave that way) and signature / chain / decryption of these images are NOT asserted",
+        "AES-CTR counter: the standard 128-bit big-endian increment of the trusted base, also where the start value makes it carry or wrap",
         "DSC families (mc56f81xxx, mwct20xx: BCA-based CRC and Vx-signed images) are outside the domain: no offline description of that ROM's checks",
         "plain images carry nothing the ROM verifies and are not built",
         "the key store is a device-bound blob the ROM does not authenticate with the image: flips inside it are expected to be accepted",
@@ -709,6 +853,8 @@ def run(tier):
     rc = v.finish()
     if mismatch and rc == 0:  # the measurement of the verifier itself failed: not a verdict about SPSDK
         raise Machinery(f"{len(mismatch)} tamper runs did not end as the model predicted, e.g. {mismatch[0]}")
+    if missed and rc == 0:  # the generator did not reach what TLC planned: the run proves less than it says
+        raise Machinery(f"{len(missed)} planned special values were not reached on the exported bytes, e.g. {missed[0]}")
     return rc
 
 
@@ -724,17 +870,18 @@ def all_bits(jobs):
         plan = tamper_plan(reg, len(data), None, "all")
         parts = [plan[i:i + 512] for i in range(0, len(plan), 512)]
 
-        def work(part, data=data, rom=rom, sec=sec, cid=case["id"]):
+        def work(part, data=data, rom=rom, sec=sec, cid=case["id"], pay=_info["pay"]):
             res = []
             for name, pos, bit in part:
                 b2 = bytearray(data)
                 b2[pos] ^= 1 << bit
                 ev2, _ = R.walk(bytes(b2), rom, sec)
-                res.append({"id": f"{cid}#{pos}.{bit}", "cls": name, "rom": rom, "ev": ev2})
+                res.append({"id": f"{cid}#{pos}.{bit}", "cls": name, "rom": rom, "pay": pay, "ev": ev2})
             return res
 
         tam = [t for part in pmap(work, parts, chunksize=1) for t in part]
-        out.append({"id": case["id"], "outcome": "exported", "trace": {"id": case["id"], "rom": rom, "ev": ev}, "n": len(data), "tamper": tam, "reg": reg})
+        out.append({"id": case["id"], "outcome": "exported", "trace": {"id": case["id"], "rom": rom, "pay": _info["pay"], "ev": ev}, "n": len(data),
+                    "tamper": tam, "reg": reg})
     return out
 
 
@@ -746,15 +893,15 @@ def replay(path):
     comp = comps.get(case["comp"])
     if comp is None:
         raise Machinery(f"composition {case['comp']} is not in the database any more")
-    data, rom, sec, _ = build(case, comp, os.path.join(scratch(), "c02-replay"))
+    data, rom, sec, info = build(case, comp, os.path.join(scratch(), "c02-replay"))
     ev, _ = R.walk(data, rom, sec)
     for e in ev:
         say(json.dumps(e)[:400])
-    rej, _ = tlc.tv("C02", "MbiRomTrace", [{"id": case["id"], "rom": rom, "ev": ev}])
+    rej, _ = tlc.tv("C02", "MbiRomTrace", [{"id": case["id"], "rom": rom, "pay": info["pay"], "ev": ev}])
     if rej:
         m, n, name = rej[case["id"]]
         say(f"VIOLATION property=C02 replay={path}")
         say(f"  the ROM automaton rejects the exported image at event #{m + 1} ({name})")
         return 1
-    say("replay: the exported image is accepted by the ROM automaton")
+    say("replay: the exported image passes the ROM automaton" + (" up to the HMAC check (unsettled corner)" if ev[-1]["ev"] == "CertSplit" else ""))
     return 0
